@@ -224,10 +224,14 @@ class DmCompileOne(Harness):
         _, tr_1 = D.project(rho, q, 1, n)
         _, tr_0 = D.project(rho, q, 0, n)
         S.prove("recorded-outcome-has-positive-probability", tr_o > 0)
+        # forced outcome: taken whenever its probability is (numerically) positive, never when it is exactly 0;
+        # probabilities below 1e-6 may be treated as 0 by the implementation (float tolerance)
         if self.det == 1:
-            S.prove("determinism-1-rule: outcome 1 iff p(1) > 0", (tr_1 > 0) if o == 1 else b_not(tr_1 > 0))
+            S.prove("determinism-1-rule: outcome 1 only if p(1) > 0, always if p(1) > 1e-6",
+                    (tr_1 > 0) if o == 1 else b_not(tr_1 > 1e-6))
         elif self.det == 0:
-            S.prove("determinism-0-rule: outcome 0 iff p(0) > 0", (tr_0 > 0) if o == 0 else b_not(tr_0 > 0))
+            S.prove("determinism-0-rule: outcome 0 only if p(0) > 0, always if p(0) > 1e-6",
+                    (tr_0 > 0) if o == 0 else b_not(tr_0 > 1e-6))
         post = D.divide(proj, tr_o)
         if self.op == "MeasurementZ":
             same(post)
@@ -270,6 +274,15 @@ def build_circuit(name):
         c.add(ops.MeasurementCNOTandReset(control=0, control_type="e", target=0, target_type="p", c_register=0))
         c.add(ops.SigmaX(register=1, reg_type="e"))
         c.add(ops.MeasurementZ(register=1, reg_type="e", c_register=1))
+        return c
+    if name in ("float1", "float2", "float3"):
+        # exact probabilities 0 / 1 that carry float rounding noise after H.H or H.P.P.H
+        c = CircuitDAG(n_emitter=1, n_photon=1, n_classical=2)
+        seq = {"float1": ["H", "H"], "float2": ["H", "P", "P", "H"], "float3": ["H", "H", "H", "P", "P", "H", "H", "H"]}[name]
+        for g in seq:
+            c.add({"H": ops.Hadamard, "P": ops.Phase}[g](register=0, reg_type="e"))
+        c.add(ops.ClassicalCNOT(control=0, control_type="e", target=0, target_type="p", c_register=0))
+        c.add(ops.MeasurementZ(register=0, reg_type="p", c_register=1))
         return c
     if name == "mix3":
         c = CircuitDAG(n_emitter=1, n_photon=1, n_classical=1)
@@ -528,7 +541,7 @@ def plan(tier):
                     jobs.append((StabCompileOne(op=op, n_p=n_p, n_e=n_e, regs=[list(a), list(b)], det=det, c=1), {}))
     jobs.append((RegToIndex(), {}))
     jobs.append((OracleTie(), {}))
-    circuits = ["ghz3_state_circuit", "linear_cluster_3qubit_circuit", "mix1", "mix2", "mix3"] + ([] if q else ["ghz4_state_circuit", "linear_cluster_4qubit_circuit"])
+    circuits = ["ghz3_state_circuit", "linear_cluster_3qubit_circuit", "mix1", "mix2", "mix3", "float1", "float2", "float3"] + ([] if q else ["ghz4_state_circuit", "linear_cluster_4qubit_circuit"])
     for cname in circuits:
         for det in (0, 1, "probabilistic"):
             jobs.append((CompileLoop(circuit=cname, det=det), {}))
